@@ -1,6 +1,7 @@
 """C17 Command line: no crash on any option vector; exit 0 iff the operation succeeded."""
 from . import cli_rules, b64_rules
 LEVEL = 'other'
+RULES = ('R12.a', 'R17.a', 'R17.b', 'R17.c', 'R17.d', 'R17.e', 'R17.f', 'R17.g', 'R15.f', 'R12.d', 'R02.f', 'R16.a', 'R16.b', 'R16.v', 'R16.u')
 
 
 def run(prog, rec, tier):
@@ -12,7 +13,7 @@ def run(prog, rec, tier):
     # exit status reflects the outcome only if the operation's own result does: result == (verification returned 0)
     from .driver_rules import DriverRules
     DriverRules(prog, rec, tier).reader()
-    keep = ('R12.a', 'R17.a', 'R17.b', 'R17.c', 'R17.d', 'R17.e', 'R17.f', 'R17.g', 'R15.f', 'R12.d', 'R02.f', 'R16.a', 'R16.b', 'R16.v', 'R16.u')
+    keep = RULES
     rec.obls = [o for o in rec.obls if o.rule in keep]
     rec.extra['explanation'] = (
         'The option parser is interpreted over every sequence of options (getopt_long forks over the option table read from the code, with '
